@@ -174,11 +174,45 @@ def parse_enums(src):
     return out
 
 
+def _field_names(body):
+    names = []
+    for part in _split_commas(body):
+        part = _strip_attrs(part)
+        part = re.sub(r'^pub(\([^)]*\))?\s+', '', part)
+        mm = re.match(r'^([A-Za-z_][A-Za-z_0-9]*)\s*:', part)
+        if mm:
+            names.append(mm.group(1))
+    return names
+
+
+def parse_structs(src):
+    """-> (structs: name -> [field names] (named structs only), variant_fields: (enum, variant) -> [names])"""
+    s = strip_comments(src)
+    structs = {}
+    for m in re.finditer(r'\bstruct\s+([A-Za-z_][A-Za-z_0-9]*)\s*(<[^{(;]*>)?\s*(where[^{]*)?\{', s):
+        start = m.end() - 1
+        end = _match_brace(s, start)
+        structs[m.group(1)] = _field_names(s[start + 1:end])
+    vfields = {}
+    for m in re.finditer(r'\benum\s+([A-Za-z_][A-Za-z_0-9]*)\s*(<[^{]*>)?\s*\{', s):
+        start = m.end() - 1
+        end = _match_brace(s, start)
+        for part in _split_commas(s[start + 1:end]):
+            part = _strip_attrs(part)
+            mm = re.match(r'^([A-Za-z_][A-Za-z_0-9]*)\s*\{', part)
+            if mm:
+                j = _match_brace(part, mm.end() - 1)
+                vfields[(m.group(1), mm.group(1))] = _field_names(part[mm.end():j])
+    return structs, vfields
+
+
 class SourceInfo:
     def __init__(self, root):
         self.root = root
         self.files = {}
         self.enums = dict(STD_ENUMS)
+        self.structs = {}
+        self.vfields = {}
         self.impl_cache = {}
 
     def load_crate(self, reldir):
@@ -190,6 +224,9 @@ class SourceInfo:
                 self.files[os.path.join(reldir, 'src', fn)] = txt
                 for k, v in parse_enums(txt).items():
                     self.enums[k] = v
+                st, vf = parse_structs(txt)
+                self.structs.update(st)
+                self.vfields.update(vf)
 
     def span_text(self, file, l1, c1, l2, c2):
         txt = self.files.get(file)
